@@ -66,7 +66,7 @@ def assignment(outcome, atoms, ignore=None):
     return assign, unknown
 
 
-def check_decision_table(chk, rid, what, where, outs, atoms, observe, spec, ignore=None, key_prefix=None):
+def check_decision_table(chk, rid, what, where, outs, atoms, observe, spec, ignore=None, key_prefix=None, allow_cut=False):
     """For every abstract trace: under every completion of its decided atoms, spec(assign) must equal
     observe(trace). Also the traces must cover all 2^k assignments (no row undecided).
     Returns number of rows covered."""
@@ -74,7 +74,7 @@ def check_decision_table(chk, rid, what, where, outs, atoms, observe, spec, igno
     covered = {}
     kp = key_prefix or ('%s|%s' % (rid, what))
     for o in outs:
-        if o.kind == 'cut':
+        if o.kind == 'cut' and not allow_cut:
             chk.fail(rid, what + ':cut', where, 'analysis could not follow a loop in %s: verdict unknown' % what,
                      key=kp + '|cut')
             continue
